@@ -362,6 +362,8 @@ def random_topology(rng, n, graph_kind):
     for i in range(n):
         if i and rng.random() < 0.15:
             resid += 1
+        elif i and rng.random() < 0.04:
+            resid = 1             # a second chain: residue numbers start again (file order is what counts)
         toks = [str(nrs[i]), rng.choice(['C', 'P4', 'opls_135']), str(resid), 'R%d' % (resid % 3),
                 'A%d' % (i % 97), str(i + 1), rng.choice(['0.0', '-0.25', '1']), rng.choice(['12.011', '72'])]
         cs = [] if rng.random() < 0.7 else [[rng.choice(WORDS)]]
